@@ -26,7 +26,7 @@ ANCHORS = ["coxeter.shapes.convex_polygon:ConvexPolygon.distance_to_surface",
 REQUIRED_MONITORS = ["Circle.distance_to_surface", "Ellipse.distance_to_surface", "ConvexPolygon.distance_to_surface",
                      "ConvexSpheropolygon.distance_to_surface", "argument-unchanged"]
 REQUIRED_CLASSES = ["poly:regular", "poly:irregular", "poly:axis-aligned", "sphero:r=0", "sphero:r>0", "Ellipse", "Circle",
-                    "angles:ndarray:f", "angles:ndarray:i", "angles:list:int", "angles:list:float", "angles:tuple:float", "history:aged-object", "curved:extreme-units"]
+                    "angles:ndarray:f", "angles:ndarray:i", "angles:list:int", "angles:list:float", "angles:tuple:float", "history:aged-object", "curved:extreme-units", "normal:+z", "normal:-z"]
 
 
 def ncases(tier):
@@ -103,9 +103,9 @@ def setup(rec, tier):
         if not (np.all(np.abs(V[:, 2] - V[0, 2]) <= 1e-12 * (1 + np.abs(V).max())) and abs(abs(E["frame"][2][2]) - 1) < 1e-12):
             rec.note("polygon not in the xy-plane, not judged")
             return
-        if E["frame"][2][2] < 0:
-            rec.note("polygon with -z normal, not judged (angle convention unspecified)")
-            return
+        # (a polygon in the xy-plane whose normal is -z lies in the xy-plane too: the statement's d(cos theta, sin theta) is in
+        # that plane's coordinates whatever side the polygon is looked at from)
+        rec.cls("normal:" + ("+z" if E["frame"][2][2] > 0 else "-z"))
         xy = V[:, :2]
         cen = E["centroid"][:2]
         want = geom.ray_polygon_distance(xy, cen, th.ravel()).reshape(th.shape)
@@ -118,12 +118,13 @@ def setup(rec, tier):
         V = np.asarray(s.vertices, float)
         nrm = np.asarray(s.normal, float)
         E = geom.poly3d_exact(V, nrm)
-        if not (np.all(V[:, 2] == V[0, 2]) and E["frame"][2][2] > 1 - 1e-12):
-            rec.note("spheropolygon not in the xy-plane with +z normal, not judged")
+        if not (np.all(V[:, 2] == V[0, 2]) and abs(E["frame"][2][2]) > 1 - 1e-12):
+            rec.note("spheropolygon not in the xy-plane, not judged")
             return
+        rec.cls("normal:" + ("+z" if E["frame"][2][2] > 0 else "-z"))
         r = float(s.radius)
         xy = V[:, :2]
-        if E["signed_area"] < 0:
+        if geom.poly2d_moments(xy)[0] < 0:          # counter-clockwise in the plane's own coordinates for the oracle
             xy = xy[::-1]
         cen = E["centroid"][:2]
         want = sphero_radial(xy, cen, r, th.ravel()).reshape(th.shape)
@@ -183,9 +184,11 @@ def run_case(i, rng, rec, tier, state):
         xy = xy[rng.permutation(len(xy))] if rng.random() < 0.5 else xy              # the convex classes accept any input order
         th = points.angles(rng, vd, nth)
         form = rng.random()
+        # the polygon lies in the xy-plane; which way its normal points is the caller's (or the constructor's) choice
+        narg = [[0, 0, 1], [0, 0, 1], [0, 0, -1], None][int(rng.integers(4))]
         if mode == 0:
             try:
-                s = cs.ConvexPolygon(xy.copy(), normal=[0, 0, 1])
+                s = cs.ConvexPolygon(xy.copy(), normal=narg)
             except Exception as e:
                 rec.note("construct-failed (judged by C15): " + type(e).__name__)
                 return
@@ -196,7 +199,7 @@ def run_case(i, rng, rec, tier, state):
             r = 0.0 if rng.random() < 0.15 else float(np.exp(rng.uniform(math.log(1e-2), math.log(10)))) * size
             rec.cls("sphero:r=0" if r == 0 else "sphero:r>0")
             try:
-                s = cs.ConvexSpheropolygon(xy.copy(), r, normal=[0, 0, 1])
+                s = cs.ConvexSpheropolygon(xy.copy(), r, normal=narg)
             except Exception as e:
                 rec.note("construct-failed (judged by C15): " + type(e).__name__)
                 return
